@@ -215,7 +215,7 @@ def budget_for(cal: Dict[str, Any], nbytes: int) -> int:
 
 
 def choose_faults(ctx: C.Ctx, seeds: List[S.SeedDoc], cal) -> List[Tuple[S.SeedDoc, Dict[str, Any], List[str]]]:
-    """Quick: all ref faults and key removals, per replace-site 2 target types, sampled payload damage and
+    """Quick: most ref faults and all key removals, per replace-site 2 target types, sampled payload damage and
     truncation points, one entry point per case (rotating); thorough: everything, all three entry points."""
     rng = ctx.rng
     plan: List[Tuple[S.SeedDoc, Dict[str, Any], List[str]]] = []
@@ -233,7 +233,7 @@ def choose_faults(ctx: C.Ctx, seeds: List[S.SeedDoc], cal) -> List[Tuple[S.SeedD
             payload = []
             for f in faults:
                 if f["kind"] in ("ref", "remove"):
-                    if f["kind"] == "remove" or rng.random() < 0.5 * ctx.boost:
+                    if f["kind"] == "remove" or rng.random() < 0.8 * ctx.boost:
                         chosen.append(f)
                 elif f["kind"] == "replace":
                     by_site[json.dumps([f["target"], f["obj"], f["path"]], default=str)].append(f)
@@ -241,15 +241,15 @@ def choose_faults(ctx: C.Ctx, seeds: List[S.SeedDoc], cal) -> List[Tuple[S.SeedD
                     payload.append(f)
             for site, fs in by_site.items():
                 # canonical value of 1 random type per site + 1 random alternative anywhere
-                tys = rng.sample(sorted({f["to"] for f in fs}), 1)
+                tys = rng.sample(sorted({f["to"] for f in fs}), 2)
                 for f in fs:
                     if f["to"] in tys and f["alt"] == 0:
                         chosen.append(f)
                 if rng.random() < 0.35 * ctx.boost:
                     chosen.append(rng.choice(fs))
-            npay = min(len(payload), ctx.n(130, 0))
+            npay = min(len(payload), ctx.n(300, 0))
             chosen += rng.sample(payload, npay)
-            chosen += rng.sample(trunc, min(len(trunc), ctx.n(90, 0)))
+            chosen += rng.sample(trunc, min(len(trunc), ctx.n(200, 0)))
         for f in chosen:
             if thorough:
                 ents = list(ENTRIES)
